@@ -6,6 +6,8 @@ import (
 	"flag"
 	"fmt"
 	"os"
+	"os/signal"
+	"syscall"
 	"path/filepath"
 	"runtime"
 	"sort"
@@ -70,6 +72,14 @@ func main() {
 	if len(os.Args) < 2 {
 		usage()
 	}
+	// a terminated run (timeout, ^C) still removes its scratch directories
+	sigc := make(chan os.Signal, 1)
+	signal.Notify(sigc, syscall.SIGTERM, syscall.SIGINT)
+	go func() {
+		<-sigc
+		sym.CleanupTemps()
+		os.Exit(143)
+	}()
 	switch os.Args[1] {
 	case "check":
 		os.Exit(cmdCheck(os.Args[2:]))
